@@ -19,6 +19,9 @@ pub struct TapeRng {
     /// ... and back to the original stream from this position on (only one draw replaced)
     switch_back: Option<usize>,
     alt: Option<ChaCha20Rng>,
+    /// the first `.0` bytes of the tape have the bits `.1` forced to one (a structured tape on which
+    /// rejection sampling keeps rejecting; the bytes still differ from tape to tape)
+    pub force: Option<(usize, u8)>,
 }
 
 pub fn tape_key(run_seed: u64, tape: i64) -> [u8; 32] {
@@ -38,6 +41,7 @@ impl TapeRng {
             switch_at: None,
             switch_back: None,
             alt: None,
+            force: None,
         }
     }
     /// A tape equal to `tape` except for the bytes [off, off+len), which come from `other`.
@@ -69,6 +73,11 @@ impl TapeRng {
             }
         } else {
             self.inner.fill_bytes(&mut b);
+        }
+        if let Some((n, m)) = self.force {
+            if self.pos < n {
+                b[0] |= m;
+            }
         }
         self.pos += 1;
         b[0]
